@@ -25,6 +25,7 @@ import (
 	"fmt"
 	"math/rand"
 	"reflect"
+	"runtime/debug"
 	"sort"
 	"strings"
 	"testing"
@@ -55,6 +56,55 @@ import (
 
 	"fxverif/harness/hx"
 )
+
+// tryBlame runs f under recover and, on a panic, names the frame that is to blame: walking outwards from the panic, frames of
+// value-level helper packages that panic BY CONTRACT on a bad argument (the Go runtime, the standard library, cosmossdk.io/math,
+// cosmossdk.io/errors, the package github.com/cosmos/cosmos-sdk/types itself: sdk.NewCoin, sdk.MustAccAddressFromBech32, …)
+// are skipped; the first remaining frame is the code that handed the bad argument over.  fx-core there = fx-core's panic.
+func tryBlame(f func() error) (res, blame, frames string) {
+	defer func() {
+		if r := recover(); r != nil {
+			msg := fmt.Sprint(r)
+			if i := strings.IndexByte(msg, '\n'); i >= 0 {
+				msg = msg[:i]
+			}
+			st := string(debug.Stack())
+			frames = panicFrames(st)
+			seen := false
+			for _, l := range strings.Split(st, "\n") {
+				if strings.HasPrefix(l, "\t") || l == "" {
+					continue
+				}
+				if strings.HasPrefix(l, "panic(") {
+					seen = true
+					continue
+				}
+				if !seen {
+					continue
+				}
+				if i := strings.LastIndexByte(l, '('); i > 0 {
+					l = l[:i]
+				}
+				first := l
+				if i := strings.IndexByte(first, '/'); i >= 0 {
+					first = first[:i]
+				}
+				helper := !strings.Contains(first, ".") || strings.HasPrefix(l, "runtime.") || // runtime / standard library
+					strings.HasPrefix(l, "cosmossdk.io/math.") || strings.HasPrefix(l, "cosmossdk.io/math/") || strings.HasPrefix(l, "cosmossdk.io/errors.") ||
+					strings.HasPrefix(l, "github.com/cosmos/cosmos-sdk/types.")
+				if strings.HasPrefix(l, "github.com/functionx/fx-core/") || !helper {
+					blame = l
+					break
+				}
+			}
+			res = "panic:" + msg
+		}
+	}()
+	if err := f(); err != nil {
+		return "err:" + err.Error(), "", ""
+	}
+	return "ok", "", ""
+}
 
 type abciVariant struct {
 	class string
@@ -434,6 +484,10 @@ func hostileDyn(md protoreflect.MessageDescriptor, rng *rand.Rand, addrs []strin
 	scalar := func(fd protoreflect.FieldDescriptor) (protoreflect.Value, bool) {
 		switch fd.Kind() {
 		case protoreflect.StringKind:
+			// a request is routed by its chain name first: mostly a registered chain, so that the other fields are looked at
+			if strings.Contains(string(fd.Name()), "chain") && rng.Intn(10) < 7 {
+				return protoreflect.ValueOfString([]string{"eth", "tron", "bsc"}[rng.Intn(3)]), true
+			}
 			if rng.Intn(3) == 0 {
 				return protoreflect.ValueOfString(addrs[rng.Intn(len(addrs))]), true
 			}
@@ -539,19 +593,18 @@ func (e *env) querySweep(s *hx.Suite, w *rawWorld) {
 			return
 		}
 		// attribute: call the registered handler directly, keeping the stack
-		owner := ""
+		owner, frames := "", ""
 		if h := router.Route(path); h != nil {
 			if ctx, err := s.App.CreateQueryContext(0, false); err == nil {
-				lastStack, lastFaultFrame = "", ""
-				if r := tryStack(func() error { _, err := h(ctx, &abci.RequestQuery{Path: path, Data: data}); return err }); isPanic(r) &&
-					strings.HasPrefix(lastFaultFrame, "github.com/functionx/fx-core/") {
-					owner = lastFaultFrame + ": " + r
+				r, blame, fr := tryBlame(func() error { _, err := h(ctx, &abci.RequestQuery{Path: path, Data: data}); return err })
+				if isPanic(r) && strings.HasPrefix(blame, "github.com/functionx/fx-core/") {
+					owner, frames = blame+": "+r, fr
 				}
 			}
 		}
 		if owner != "" {
 			desc := fmt.Sprintf("gRPC query %s answered a malformed request with a recovered panic (code %d); the handler panics in fx-core code: %s; request class [%s]", path, q.Code, owner, class)
-			e.violate("query "+path, desc, append([]string{"# " + desc, "# frames: " + lastStack}, replay...))
+			e.violate("query "+path, desc, append([]string{"# " + desc, "# frames: " + frames}, replay...))
 			return
 		}
 		l := strings.ReplaceAll(q.Log, "\n", " ")
@@ -694,14 +747,13 @@ func (e *env) ibcPacketSweep(s *hx.Suite, w *rawWorld) {
 			// acknowledgements and time-outs concern packets THIS chain sent
 			p = channeltypes.NewPacket(data, uint64(1+e.rng.Intn(1000)), "transfer", chID, "transfer", cpID, clienttypes.NewHeight(100, 100000), 0)
 		}
-		lastStack, lastFaultFrame = "", ""
 		var outcome string
-		res := tryStack(func() error { outcome = f(ctx, p); return nil })
+		res, blame, frames := tryBlame(func() error { outcome = f(ctx, p); return nil })
 		e.out.Stats.Evaluations++
 		if isPanic(res) {
-			if strings.HasPrefix(lastFaultFrame, "github.com/functionx/fx-core/") {
-				desc := fmt.Sprintf("panic in %s of the transfer stack (fx middleware) on an ICS-20 packet of class [%s] (%s): %s", stage, class, lastFaultFrame, res)
-				e.violate("ibc "+stage+" "+lastFaultFrame, desc, []string{"# " + desc, "# frames: " + lastStack, "packet " + stage + " " + hex.EncodeToString(data)})
+			if strings.HasPrefix(blame, "github.com/functionx/fx-core/") {
+				desc := fmt.Sprintf("panic in %s of the transfer stack (fx middleware) on an ICS-20 packet of class [%s] (%s): %s", stage, class, blame, res)
+				e.violate("ibc "+stage+" "+blame, desc, []string{"# " + desc, "# frames: " + frames, "packet " + stage + " " + hex.EncodeToString(data)})
 			} else {
 				e.out.Count("ibc-dependency-panic")
 				e.dep["ibc "+stage+": "+res]++
